@@ -63,6 +63,8 @@ def gen(rng, tier, index):
         plan["n_load_steps"] = int(rng.integers(1, 6))
         plan["tol"] = 1e-8
         plan["num_per_cell"] = str(rng.choice(["Auto", "3", "4"]))
+        if rng.random() < 0.5:
+            plan["lead_body"] = {"m": float(rng.uniform(0.5, 2)), "theta": rng.uniform(0.1, 0.5, 3).tolist(), "offset": rng.uniform(-0.5, 0.5, 3).tolist()}
         plan["ops"] = [{"what": "rod"}] + ([{"what": "rod"}] if rng.random() < 0.3 else [])
         if rng.random() < 0.3:
             # fault: an export that aborts part-way (its contribution raises at frame `at`), then business as usual
@@ -385,6 +387,8 @@ def execute(plan, out, log):
                         e.export_contr(rod)
                         contrs = [("rod", rod)]
                         out["probes"]["rod_exported"] += 1
+                        if plan.get("lead_body"):
+                            out["probes"]["rod_not_first_in_system"] += 1
                     elif what == "system":
                         # System.export creates its own Export (same path / folder semantics)
                         e2 = system.export(Path(tmp), "vtk_system", sol, overwrite=True, fps=plan["fps"])
